@@ -144,6 +144,21 @@ var amplifiers = []struct {
 
 // linkSigned runs one handshake of a scripted, correctly signing participant with one malformed field; the first
 // len(signedFields)*len(amplifiers) instances sweep every field with every amplifier, the rest is drawn at random.
+// linkPaused (class link-mid/paused-handshake): the participant's messages are all well-formed - but it pauses before
+// its second or its third message, for minutes or hours, and the victim's session cleaner has its tick (guarded hook)
+// before the handshake goes on.
+func linkPaused(rng *rand.Rand, inst int) (outcome, detail, input string) {
+	pausedBefore = 2 + inst%2
+	pausedFor = []time.Duration{90 * time.Second, 3 * time.Minute, 2 * time.Hour}[(inst/2)%3]
+	defer func() { pausedBefore = 0 }()
+	return linkSigned(rng, -1)
+}
+
+var (
+	pausedBefore int
+	pausedFor    time.Duration
+)
+
 func linkSigned(rng *rand.Rand, inst int) (outcome, detail, input string) {
 	w := world.NewWorld()
 	ids := mesh.Identities(2)
@@ -168,14 +183,22 @@ func linkSigned(rng *rand.Rand, inst int) (outcome, detail, input string) {
 	}()
 	tf := signedFields[rng.Intn(len(signedFields))]
 	val, vdesc := weird(rng)
-	if inst < len(signedFields)*len(amplifiers) {
+	if inst >= 0 && inst < len(signedFields)*len(amplifiers) {
 		tf = signedFields[inst/len(amplifiers)]
 		am := amplifiers[inst%len(amplifiers)]
 		val, vdesc = am.v, am.desc
 	}
 	target, field := tf[0].(int), tf[1].(string)
 	input = fmt.Sprintf("victim dials=%v, message %d field %q = %s", outgoing, target, field, vdesc)
+	if inst < 0 {
+		target = 0
+		input = fmt.Sprintf("victim dials=%v, well-formed messages, a pause of %v before message %d", outgoing, pausedFor, pausedBefore)
+	}
 	send := func(k int, msg map[string]any, dst netip.Addr) error {
+		if k == pausedBefore {
+			removed := v.St.VerifIdleAndClean(pausedFor)
+			input += fmt.Sprintf(" (the session cleaner removed %d session(s))", removed)
+		}
 		if k == target {
 			msg[field] = val
 		}
